@@ -25,7 +25,8 @@ class StepCap(Exception):
 
 
 class Task:
-    def __init__(self, kernel, fn, name, daemon):
+    def __init__(self, kernel, fn, name, daemon, proc=None):
+        self.proc = proc
         self.kernel = kernel
         self.fn = fn
         self.name = name
@@ -80,10 +81,13 @@ class Kernel:
         self.step_cap = step_cap
         self.sched_trace = []
         self.idle_jumps = 0
+        self.fenced = set()
 
     # ---- task API (called from tasks)
-    def spawn(self, fn, name, daemon=False):
-        t = Task(self, fn, name, daemon)
+    def spawn(self, fn, name, daemon=False, proc=None):
+        if proc is None and self.current is not None:
+            proc = self.current.proc          # threads belong to their creator's process
+        t = Task(self, fn, name, daemon, proc)
         t.thread = _RealThread(target=t._body, name="sim-" + name, daemon=True)
         t.started = True
         self.tasks.append(t)
@@ -93,10 +97,23 @@ class Kernel:
 
     def _park(self):
         me = self.current
+        if me.proc is not None and me.proc in self.fenced:
+            raise SimCrash()
         self.back.release()
         me.go.acquire()
-        if self.dead:
+        if self.dead or (me.proc is not None and me.proc in self.fenced):
             raise SimCrash()
+
+    def fence(self, proc):
+        """Crash of a process: from now on every seam call of its tasks has no effect
+        and raises SimCrash; parked tasks are woken so that they unwind."""
+        self.fenced.add(proc)
+        for t in self.tasks:
+            if t.proc == proc and not t.done:
+                t.wait_pred = lambda: True
+
+    def proc_alive(self, proc):
+        return any(t.proc == proc and not t.done for t in self.tasks)
 
     def yield_point(self, label=""):
         """A plain pre-emption point."""
